@@ -13,6 +13,31 @@ IDENTITY_EQ = {'state', 'fn', 'Thread', 'ThreadEvent', 'LockingDeque', 'Attribut
                'RLock', 'class', None}
 
 
+class AliasEnv(dict):
+    """A frame environment in which the sidecar's names for locals resolve to the (renamed) locals of the code."""
+    def __init__(self, base, renaming):
+        dict.__init__(self, base)
+        self._ren = renaming
+
+    def _k(self, k):
+        return self._ren.get(k, k)
+
+    def __getitem__(self, k):
+        return dict.__getitem__(self, self._k(k))
+
+    def __setitem__(self, k, v):
+        dict.__setitem__(self, self._k(k), v)
+
+    def __contains__(self, k):
+        return dict.__contains__(self, self._k(k))
+
+    def get(self, k, d=None):
+        return dict.get(self, self._k(k), d)
+
+    def setdefault(self, k, d=None):
+        return dict.setdefault(self, self._k(k), d)
+
+
 class YieldSignal(Exception):
     def __init__(self, value):
         self.value = value
@@ -276,6 +301,33 @@ class Interp:
                 return f.info.path, i + 1
         raise Unsupported('loop not found')
 
+    def reattach_loop_spec(self, st, path, ordinal):
+        shapes = self.w.loop_shapes()
+        if not shapes:
+            return None
+        from .extract import loop_shape
+        sh, names = loop_shape(st)
+        cands = [k for k, v in shapes.items() if v['shape'] == sh and self._lkey(k) in self.w.loopspecs]
+        if not cands:
+            return None
+        on_stack = [fr.func.info.path for fr in self.c.frames if isinstance(fr.func, SFunc)]
+        pref = [k for k in cands if self._lkey(k)[0] in on_stack]
+        if len(pref) == 1:
+            cands = pref
+        if len(cands) != 1:
+            return None
+        okey = self._lkey(cands[0])
+        onames = shapes[cands[0]]['names']
+        if len(onames) != len(names):
+            return None
+        renaming = {o: n for o, n in zip(onames, names) if o != n}
+        return self.w.loopspecs[okey], okey, renaming
+
+    @staticmethod
+    def _lkey(k):
+        p, n = k.rsplit('#', 1)
+        return (p, int(n))
+
     def st_While(self, st):
         if st.orelse:
             raise Unsupported('while/else')
@@ -301,10 +353,40 @@ class Interp:
         c = self.c
         path, ordinal = self.loop_key(st)
         spec = self.w.loopspecs.get((path, ordinal))
-        if spec is None:
-            raise Unsupported('loop %s#%d has no sidecar invariant' % (path, ordinal))
-        lname = '%s:loop%d' % (path.split('.', 1)[1], ordinal)
         env = c.env
+        if spec is not None:
+            # the sidecar was written for a particular loop: if the loop found at this position has another header
+            # (another kind of loop, another test) the function was restructured and the invariant is not attached
+            snap = self.w.loop_shapes().get('%s#%d' % (path, ordinal))
+            if snap is not None and snap.get('header'):
+                from .extract import loop_header_shape
+                if loop_header_shape(st) != snap['header']:
+                    spec = None
+        if spec is None:
+            # the loop may have been moved (unchanged up to renaming) out of the function the sidecar names
+            found = self.reattach_loop_spec(st, path, ordinal)
+            if found is None:
+                raise Unsupported('loop %s#%d has no sidecar invariant (none was written for it, or the loop was '
+                                  'restructured)' % (path, ordinal))
+            spec, okey, renaming = found
+            self.w.dropped.add('loop invariant of %s#%d re-attached to the same loop found in %s (shape equal up to '
+                               'renaming of locals)' % (okey[0], okey[1], path))
+            # the sidecar's names for the locals (and for the iteration counter of its ordinal) keep working
+            renaming = dict(renaming)
+            for pre in ('$k', '$it'):
+                renaming[pre + str(okey[1])] = pre + str(ordinal)
+            for frm in c.frames[:-1]:
+                # the locals of the callers stay visible to the sidecar under their own names (the loop used to be there)
+                for k_, v_ in frm.env.items():
+                    if k_ not in env and k_ not in renaming:
+                        env.setdefault('$outer:' + k_, v_)
+                        renaming.setdefault(k_, '$outer:' + k_)
+            env = AliasEnv(env, renaming)
+            c.frames[-1].env = env
+            path_for_name, ord_for_name = okey
+        else:
+            path_for_name, ord_for_name = path, ordinal
+        lname = '%s:loop%d' % (path_for_name.split('.', 1)[1], ord_for_name)
         it_state = None
         if kind == 'for':
             it_state = B.for_setup(self, st, env)          # evaluates the iterable once; sets env['$k<ord>']
@@ -470,7 +552,48 @@ class Interp:
             return False
         if e.id == 'None':
             return None
-        return self.c.lookup(e.id)
+        try:
+            return self.c.lookup(e.id)
+        except Unsupported:
+            v = self.assigned_function_value(e.id)
+            if v is None:
+                raise
+            return v
+
+    def assigned_function_value(self, name):
+        """`name = factory(<constants>)` at module level or in the class body of the running method, where factory is
+        a function of the module (a decorator factory, typically): evaluated by running the factory's real body."""
+        fr = self.c.frames[-1]
+        f = fr.func
+        if not isinstance(f, SFunc):
+            # decorators are evaluated while a class/module is being set up: look through every module
+            mods = list(self.src.module_assigns)
+        else:
+            mods = [f.info.module] + [m for m in self.src.module_assigns if m != f.info.module]
+        cands = []
+        for m in mods:
+            v = self.src.module_assigns[m].get(name)
+            if v is not None:
+                cands.append(v)
+        for ci in self.src.classes.values():
+            v = ci.attrs.get(name)
+            if v is not None:
+                cands.append(v)
+        for v in cands:
+            if isinstance(v, ast.Call) and isinstance(v.func, ast.Name) and not v.keywords \
+                    and all(isinstance(a, ast.Constant) for a in v.args):
+                key = ('assigned_function', name, ast.dump(v))
+                if key in self.c.pyghost:
+                    return self.c.pyghost[key]
+                try:
+                    fac = self.c.lookup(v.func.id)
+                except Unsupported:
+                    continue
+                if isinstance(fac, SFunc):
+                    out = self.call_func(fac, [a.value for a in v.args], {})
+                    self.c.pyghost[key] = out
+                    return out
+        return None
 
     def ev_Tuple(self, e):
         return tuple(self.eval(x) for x in e.elts)
@@ -865,6 +988,10 @@ class Interp:
     def ev_Lambda(self, e):
         # only map(lambda x: id(x), seq) is modelled; the builtin `map` inspects the node, anything else rejects it
         return ('lambda', e)
+
+    def ev_GeneratorExp(self, e):
+        # only any(<x is y> for x in seq) is modelled; the builtin inspects the node
+        return ('genexp', e)
 
     def ev_Starred(self, e):
         raise Unsupported('starred expression')
